@@ -2,8 +2,9 @@
 C20 — bridging lemmas: the definitions regenerated from the Python AST on every run
 (`Gen.ParseTables.*` from parse_recipe_yaml.py, `Gen.GenerateOrder.*` from data_generator.py and
 data_generator_runtime.py) coincide with what the hand-written model `SnowModel.ParseCheck`
-assumes.  A changed key/type table, a check added to or removed from `parse_element`, a repaired (or
-a new) `assert`, another exception class, another order of the validation steps changes a
+assumes (repository HEAD 66ecebf, after the `fix:` commits that repaired D17a…D17ac).  A changed
+key/type table, a check added to or removed from `parse_element`, a removed validation check (or
+a new `assert`), another exception class, another order of the validation steps changes a
 generated file and one of these lemmas stops type-checking.
 -/
 import SnowModel.Core.ParseCheck
@@ -38,10 +39,9 @@ theorem includeFile_table :
     Gen.ParseTables.includeFileElement = "include_file" ∧ Gen.ParseTables.includeFileMandatory = names []
     ∧ Gen.ParseTables.includeFileOptional = names [] := by decide
 
-/-- `for_each` does not require its `var` key (the hole `forEachNoVar`), `var` statements do not
-    either but are only reached when `var` is truthy -/
-theorem forEach_var_not_mandatory :
-    (Gen.ParseTables.forEachMandatory.map (·.1)).contains "var" = false := by decide
+/-- `for_each` requires its `var` key (fix 6ccffd4): what makes `forEachNoVar` unreachable -/
+theorem forEach_var_mandatory :
+    (Gen.ParseTables.forEachMandatory.map (·.1)).contains "var" = true := by decide
 
 /-! #### `parse_element` itself -/
 
@@ -87,18 +87,63 @@ theorem versionNum_sound (y : Y) (n : Nat) (h : versionNum y = some n) : n ∈ G
   unfold versionNum at h
   split at h <;> simp at h <;> subst h <;> decide
 
+/-- the declaration loop runs after the include files and *before* the option / macro / plugin
+    declarations are used; the version merge comes last (the order of `loadFile`) -/
 theorem top_level_order :
     Gen.ParseTables.topLevelOrder
       = ["top_level_objects = categorize_top_level_objects(data, context)",
          "statements.extend(parse_included_files(path, data, context))",
+         "for kind in ('option', 'macro', 'plugin'):",
          "context.options.extend(top_level_objects['option'])",
          "context.macros.update({obj['macro']: obj for obj in top_level_objects['macro']})",
          "plugin_specs = [(obj['plugin'], obj['__line__']) for obj in top_level_objects['plugin']]",
          "context.plugins.extend(resolve_plugins(plugin_specs, search_paths=[plugin_near_recipe]))",
-         "context.version = parse_version(top_level_objects['snowfakery_version'], context)",
+         "own_version = parse_version(top_level_objects['snowfakery_version'], context)",
+         "if own_version is not None:",
          "statements.extend(top_level_objects['statement'])"]
     ∧ Gen.ParseTables.parseRecipeOrder = ["parse_file", "parse_statement_list", "build_update_recipe", "ParseResult"] := by
   decide
+
+/-- `declOk`: kinds in the order option, macro, plugin; an option / macro name must not be a list
+    or a mapping; a plugin name is a string with a dot after stripping dots, not starting with one;
+    the only raise is a DataGenSyntaxError (fix 00d5484) -/
+theorem declaration_loop_pinned :
+    Gen.ParseTables.declarationLoop
+      = ["('option', 'macro', 'plugin')", "declared = obj[kind]",
+         "well_formed = isinstance(declared, str) and '.' in declared.strip('.')",
+         "well_formed = not isinstance(declared, (list, dict))",
+         "well_formed = well_formed and (not declared.startswith('.'))"]
+    ∧ Gen.ParseTables.topLevelRaises
+      = [("not well_formed", "exc.DataGenSyntaxError"),
+         ("context.version not in (None, own_version)", "exc.DataGenSyntaxError")]
+    ∧ Gen.ParseTables.versionMerge = ["own_version is not None", "context.version not in (None, own_version)"] := by
+  decide
+
+/-- `loadFile`'s include handling: not a file → DataGenError; on the stack of files being parsed →
+    DataGenError; the stack is pushed / popped around the recursive parse (fix 70277f6, 292eb44) -/
+theorem include_cycle_check_pinned :
+    Gen.ParseTables.includedFileRaises
+      = [("not inclusion_path.is_file()", "exc.DataGenError"),
+         ("resolved in context.files_being_parsed", "exc.DataGenError")]
+    ∧ Gen.ParseTables.includedFileStack
+      = ["context.files_being_parsed.append(resolved)", "context.files_being_parsed.pop()"]
+    ∧ Gen.ParseTables.relpathRaises = [("relpath.startswith('/')", "exc.DataGenSyntaxError")] := by decide
+
+/-- `includeMacro`: unknown macro → DataGenNameError; being expanded further out, or by this chain →
+    DataGenError; the stack is pushed / popped around the expansion (fix 97f2c27) -/
+theorem macro_cycle_check_pinned :
+    Gen.ParseTables.includeMacroRaises
+      = [("not macro", "exc.DataGenNameError"),
+         ("name not in parent_macros and name in context.macros_being_expanded", "exc.DataGenError"),
+         ("name in parent_macros", "exc.DataGenError")]
+    ∧ Gen.ParseTables.includeMacroStack
+      = ["context.macros_being_expanded.append(name)", "context.macros_being_expanded.pop()"] := by decide
+
+/-- out of fuel on the code: `parse_recipe` turns the RecursionError of `parse_file` /
+    `parse_statement_list` into a DataGenSyntaxError (fix a5a821f) -/
+theorem recursion_guard_pinned :
+    Gen.ParseTables.recursionGuard
+      = ["RecursionError -> exc.DataGenSyntaxError", "parse_file", "parse_statement_list"] := by decide
 
 /-! #### values, function calls, statements, templates -/
 
@@ -110,10 +155,23 @@ theorem field_value_dispatch :
          "isinstance(field, dict)",
          "isinstance(field, list) and len(field) == 1 and isinstance(field[0], dict)"]
     ∧ Gen.ParseTables.coerceTypes = ["int", "bool", "date"]
-    ∧ Gen.ParseTables.statementDispatch = ["obj.get('object')", "obj.get('var')"]
+    ∧ Gen.ParseTables.statementDispatch = ["not isinstance(obj, dict)", "obj.get('object')", "obj.get('var')"]
     ∧ Gen.ParseTables.structuredValueDots
-      = ["if '.' in function_name:", "if function_name == 'random_reference':",
+      = ["if not isinstance(function_name, str):", "if function_name.count('.') > 1:",
+         "if '.' in function_name:", "if function_name == 'random_reference':",
          "namespace, name = function_name.split('.')"] := by decide
+
+/-- the in-place repairs: each former hole is an explicit DataGenSyntaxError
+    (fixes f9d6080, 6ccffd4, 8788294) -/
+theorem repaired_checks_pinned :
+    Gen.ParseTables.parseFieldRaises = [("not isinstance(name, str) or not name", "exc.DataGenSyntaxError")]
+    ∧ Gen.ParseTables.structuredValueRaises
+      = [("not top_level", "exc.DataGenSyntaxError"), ("not (len(top_level) > 1)", "NotImplementedError"),
+         ("not isinstance(function_name, str)", "exc.DataGenSyntaxError"),
+         ("function_name.count('.') > 1", "exc.DataGenSyntaxError")]
+    ∧ Gen.ParseTables.statementListRaises
+      = [("not isinstance(obj, dict)", "exc.DataGenSyntaxError"), ("not (obj.get('var'))", "exc.DataGenSyntaxError")] := by
+  decide
 
 theorem template_order :
     Gen.ParseTables.templateOrder.drop 1
@@ -130,52 +188,42 @@ theorem template_order :
          "context.register_template(new_template)"]
     ∧ Gen.ParseTables.registerNameTests = ["field.name.startswith('__')"] := by decide
 
-/-! #### the holes -/
+/-! #### no reachable `assert` is left -/
 
-/-- every `assert` / non-recipe `raise` of parse_recipe_yaml.py.  The four that an ill-shaped
-    document can reach are the model's `friendNotMap`, `fieldValueShape`, `fieldNameFalsy`,
-    `includeAbs`; repairing one of them (or adding a new one) changes this list. -/
+/-- every `assert` / non-DataGenError `raise` of parse_recipe_yaml.py.  The four that an ill-shaped
+    document could reach (`parse_statement_list`, `parse_field_value`, `parse_field`,
+    `relpath_from_inclusion_element`) are gone; the remaining ones are guarded by a type check of
+    `parse_element` / by the caller.  A new one changes this list. -/
 theorem asserts_pinned :
     Gen.ParseTables.asserts
       = [("line_num", "assert obj != self.current_parent_object"), ("line_num", "assert obj"),
          ("parse_structured_value", "raise NotImplementedError"),
-         ("parse_field_value", "raise AssertionError"),
-         ("parse_field", "assert name"),
          ("parse_fields", "assert isinstance(fields, dict)"),
          ("parse_object_template", "assert yaml_sobj"),
          ("parse_object_template", "assert isinstance(for_each_expr, dict)"),
          ("parse_variable_definition", "assert yaml_sobj"),
          ("parse_for_each_variable_definition", "assert yaml_sobj"),
-         ("parse_statement_list", "assert isinstance(obj, dict)"),
-         ("relpath_from_inclusion_element", "assert not relpath.startswith('/')"),
          ("categorize_top_level_objects", "assert isinstance(data, list)")] := by decide
-
-/-- the assertion behind each assert-based site of the model is in the source -/
-def siteAssert : Site → Option (String × String)
-  | .friendNotMap => some ("parse_statement_list", "assert isinstance(obj, dict)")
-  | .fieldValueShape => some ("parse_field_value", "raise AssertionError")
-  | .fieldNameFalsy => some ("parse_field", "assert name")
-  | .includeAbs => some ("relpath_from_inclusion_element", "assert not relpath.startswith('/')")
-  | _ => none
-
-theorem site_asserts_present (s : Site) (a : String × String) (h : siteAssert s = some a) :
-    a ∈ Gen.ParseTables.asserts := by
-  cases s <;> simp [siteAssert] at h <;> subst h <;> decide
 
 /-- the `DataGenError` subclass raised by each function, in source order (the `Err` kinds of the model) -/
 theorem raise_classes :
     Gen.ParseTables.raiseClasses
       = [("_coerce_to_string", "DataGenSyntaxError"), ("parse_structured_value", "DataGenSyntaxError"),
-         ("include_macro", "DataGenNameError"), ("include_macro", "DataGenError"),
-         ("parse_object_template", "DataGenSyntaxError"), ("parse_statement_list", "DataGenSyntaxError"),
+         ("parse_structured_value", "DataGenSyntaxError"), ("parse_structured_value", "DataGenSyntaxError"),
+         ("parse_field_value", "DataGenSyntaxError"), ("parse_field", "DataGenSyntaxError"),
+         ("include_macro", "DataGenNameError"), ("include_macro", "DataGenError"), ("include_macro", "DataGenError"),
+         ("parse_object_template", "DataGenSyntaxError"),
+         ("parse_statement_list", "DataGenSyntaxError"), ("parse_statement_list", "DataGenSyntaxError"),
          ("parse_element", "DataGenSyntaxError"), ("parse_element", "DataGenSyntaxError"),
-         ("parse_element", "DataGenError"), ("parse_included_file", "DataGenError"),
+         ("parse_element", "DataGenError"), ("relpath_from_inclusion_element", "DataGenSyntaxError"),
+         ("parse_included_file", "DataGenError"), ("parse_included_file", "DataGenError"),
          ("categorize_top_level_objects", "DataGenSyntaxError"),
          ("categorize_top_level_objects", "DataGenError"), ("categorize_top_level_objects", "DataGenError"),
+         ("parse_top_level_elements", "DataGenSyntaxError"), ("parse_top_level_elements", "DataGenSyntaxError"),
          ("parse_version", "DataGenSyntaxError"), ("parse_version", "DataGenSyntaxError"),
          ("parse_file", "DataGenYamlSyntaxError"), ("parse_file", "DataGenSyntaxError"),
          ("build_update_recipe", "DataGenSyntaxError"), ("build_update_recipe", "DataGenSyntaxError"),
-         ("build_update_recipe", "DataGenSyntaxError")] := by decide
+         ("build_update_recipe", "DataGenSyntaxError"), ("parse_recipe", "DataGenSyntaxError")] := by decide
 
 /-! #### `generate`: validation precedes the interpreter -/
 
@@ -192,28 +240,31 @@ theorem merge_options_pinned :
     Gen.GenerateOrder.mergeOptionsTests = ["name in user_options", "'default' in option"]
     ∧ Gen.GenerateOrder.mergeOptionsRaises = ["DataGenNameError"] := by decide
 
-/-- the body of `get_referent_name` that `checkRef` mirrors (`ret` unassigned when both are empty,
-    `kwargs['to']` unguarded, `.definition` unguarded) -/
+/-- the body of `get_referent_name` that `checkRef` mirrors (fix 2d62050: `kwargs.get`, `getattr`
+    with a default — nothing unguarded is left) -/
 theorem get_referent_name_pinned :
     Gen.GenerateOrder.getReferentName
       = ["args, kwargs = (random_reference.args, random_reference.kwargs)",
          "assert not (args and kwargs)",
-         "if args:\n    ret = args[0].definition\nelif kwargs:\n    ret = kwargs['to'].definition",
+         "target = args[0] if args else kwargs.get('to')",
+         "ret = getattr(target, 'definition', None)",
          "if not isinstance(ret, str):\n    raise DataGenSyntaxError(f'random_reference should only refer to a name, not {ret}')",
          "return ret"] := by decide
 
 /-! #### plugin declarations -/
 
-/-- `checkPlugin`: the name is split with an unguarded `rsplit` (`pluginNotStr`, `pluginNoDot`), an
-    unknown dotted name is a `DataGenImportError` -/
+/-- `checkPlugin`: the name is still split with an unguarded `rsplit` (`pluginNotStr`, `pluginNoDot`:
+    excluded by the declaration loop), an unknown dotted name is a `DataGenImportError`, something
+    that is not a class a `DataGenTypeError` (fix 00d5484) -/
 theorem plugin_resolution_pinned :
     Gen.PluginResolve.alternativesHead
       = ["prefix, class_name = plugin.rsplit('.', 1)", "testnames = [plugin + '.' + class_name, plugin]"]
     ∧ Gen.PluginResolve.alternativesHandlers = ["ModuleNotFoundError"]
     ∧ Gen.PluginResolve.resolveRaises
-      = [("not cls", "exc.DataGenImportError"), ("not (categories)", "exc.DataGenTypeError")]
+      = [("not cls", "exc.DataGenImportError"), ("not isinstance(cls, type)", "exc.DataGenTypeError"),
+         ("not (categories)", "exc.DataGenTypeError")]
     ∧ Gen.PluginResolve.resolveTests
-      = ["not cls", "issubclass(cls, FakerProvider)", "categories", "issubclass(cls, SnowfakeryPlugin)",
-         "issubclass(cls, ParserMacroPlugin)"] := by decide
+      = ["not cls", "not isinstance(cls, type)", "issubclass(cls, FakerProvider)", "categories",
+         "issubclass(cls, SnowfakeryPlugin)", "issubclass(cls, ParserMacroPlugin)"] := by decide
 
 end SnowModel.Props.C20Bridge
